@@ -382,6 +382,34 @@ def build_cases(rng, tier):
         if "@next" in keys or keys.get("@iterator") == "ret":
             t2 = ["A.@next()", "A.@next()", "A.@next()", "= (10, 20)"] if "@next" in keys else ["A.@iterator()", "= (7, 8)"]
             yield ("iterate-adaptor %s" % sorted(keys), case_lines(obj_src("a", A), ["r = a.to_tuple()", "print '= {r}'"]), t2)
+    # @iterator may return any iterable value: its elements are what every iteration context sees
+    RETS = [("list", "[7, 8]", ["7", "8"]), ("tuple", "(7, 8)", ["7", "8"]), ("range", "7..9", ["7", "8"]), ("string", "'hi'", ["h", "i"]), ("map", "{p: 7, q: 8}", ["('p', 7)", "('q', 8)"]),
+            ("list-iterator", "[7, 8].iter()", ["7", "8"]), ("adaptor", "(6..8).each |v| v + 1", ["7", "8"]), ("empty-list", "[]", []), ("one-list", "[7]", ["7"]),
+            ("nested-object", "inner", ["7", "8"]), ("next-object", "counter()", ["1", "2"]), ("number", "5", None), ("null", "null", None)]
+    for rname, rexpr, elems in RETS:
+        setup = ["inner =", "  @iterator: ||", "    print 'I.@iterator()'", "    [7, 8]",
+                 "counter = ||", "  n: 0", "  @next: ||", "    self.n += 1", "    if self.n < 3 then self.n else null",
+                 "a =", "  tag: 'A'", "  @iterator: ||", "    print 'A.@iterator()'", "    " + rexpr]
+        pre = ["A.@iterator()"] + (["I.@iterator()"] if rname == "nested-object" else [])
+        def padded(k, elems=elems):
+            return [elems[i] if i < len(elems) else "null" for i in range(k)]
+        uses = [("for", ["for x in a", "  print 'o:{x}'", "print 'done'"], None if elems is None else ["o:" + e for e in elems] + ["done"]),
+                ("unpack", ["x, y, z = a", "print '= {x} {y} {z}'"], None if elems is None else ["= " + " ".join(padded(3))]),
+                ("to_list", ["print '= {a.to_list()}'"], None if elems is None else ["= [" + ", ".join(elems).replace("h, i", "'h', 'i'") + "]"]),
+                ("packed-call", ["g = |args...| size args", "print '= {g a...}'"], None if elems is None else ["= %d" % len(elems)]),
+                ("for-in-function", ["g = |v|", "  for x in v", "    print 'o:{x}'", "  'ret'", "print '= {g a}'"], None if elems is None else ["o:" + e for e in elems] + ["= ret"]),
+                ("let-unpack", ["let x, y = a", "print '= {x} {y}'"], None if elems is None else ["= " + " ".join(padded(2))])]
+        for uname, lines, want in uses:
+            yield ("iterator-result %s %s" % (rname, uname), case_lines(setup, lines), pre + want if want is not None else ["A.@iterator()", "E"])
+    # unpacking an indexable object (@size + @index): positions counted from the end reach @index as size - k, rest... as a range
+    setup = ["a =", "  tag: 'A'", "  @size: || 3", "  @index: |i|", "    print 'A.@index({i})'", "    match i", "      0 then 10", "      1 then 20", "      2 then 30", "      else 'slice'"]
+    PATS = [("(..., last)", "last", ["2"], "30"), ("(first, ...)", "first", ["0"], "10"), ("(rest..., y, z)", "(rest, y, z)", ["0..1", "1", "2"], "('slice', 20, 30)"),
+            ("(x, rest...)", "(x, rest)", ["0", "1..3"], "(10, 'slice')"), ("(x, y, z)", "(x, y, z)", ["0", "1", "2"], "(10, 20, 30)"), ("(..., y, z)", "(y, z)", ["1", "2"], "(20, 30)"),
+            ("(x, y)", "(x, y)", None, None), ("(..., w, x, y, z)", "w", None, None)]
+    for pat, res, idxs, shown in PATS:
+        want = ["A.@index(%s)" % i for i in idxs] + ["= " + shown] if idxs is not None else None
+        yield ("unpack-indexable match %s" % pat, case_lines(setup, ["r = match a", "  %s then %s" % (pat, res), "  else 'none'", "print '= {r}'"]), want if want else ["= none"])
+        yield ("unpack-indexable arg %s" % pat, case_lines(setup, ["g = |%s| %s" % (pat, res), "r = g a", "print '= {r}'"]), want if want else ["E"])
     # lookups: data -> @meta -> @base chain (depth 1-3) -> not found; methods see the derived object as self
     for depth in (1, 2, 3):
         for where in range(depth + 1):          # which level holds the entry
